@@ -3,6 +3,9 @@
 // C16 lifecycle harness: Close / fatal alert / close_notify / deadlines placed at every
 // step index of a scripted handshake + data phase, on real client+server connections
 // inside a synctest bubble. One JSON line per scenario on VERIF_OUT.
+// Round 2: Close on a socket that does not take writes (closeblk), Close / expired deadline
+// while a Read or a Write runs the implicit Handshake (iclose / idl), the state accessors at
+// every log point of one endpoint (access), key possession of the receiver of a fatal alert.
 package dtls
 
 import (
@@ -15,13 +18,16 @@ import (
 	"runtime"
 	"strings"
 	"sync"
+	"sync/atomic"
 	"testing"
 	"testing/synctest"
 	"time"
 
+	dtlsstate "github.com/pion/dtls/v3/internal/state"
 	"github.com/pion/dtls/v3/pkg/protocol"
 	"github.com/pion/dtls/v3/pkg/protocol/alert"
 	"github.com/pion/dtls/v3/pkg/protocol/recordlayer"
+	"github.com/pion/logging"
 	"github.com/pion/transport/v4/netctx"
 )
 
@@ -278,9 +284,89 @@ type c16Lab struct {
 	nDeliv int
 }
 
-func c16NewLab(t *testing.T, variant string) *c16Lab {
+// ---------------------------------------------------------------- accessors at every log point
+
+// c16Access calls the state accessors of one connection at every point at which that
+// connection logs (every FSM transition, every "-> changeCipherSpec", ...), on the goroutine
+// that logs: a systematic placement of "a state accessor is called now" between the steps
+// of the handshake goroutines, which quiescence points cannot reach.
+type c16Access struct {
+	conn    atomic.Pointer[Conn]
+	mu      sync.Mutex
+	calls   int
+	stateOK int
+	skipped int
+	panics  []string
+}
+
+func (a *c16Access) at(msg string) {
+	conn := a.conn.Load()
+	if conn == nil {
+		return
+	}
+	// a log call made while the logging goroutine holds conn.lock for writing: the accessor
+	// would wait for its own goroutine - not a placement another goroutine could produce
+	if !conn.lock.TryRLock() {
+		a.mu.Lock()
+		a.skipped++
+		a.mu.Unlock()
+
+		return
+	}
+	conn.lock.RUnlock()
+	defer func() {
+		if r := recover(); r != nil {
+			a.mu.Lock()
+			if len(a.panics) < 8 {
+				a.panics = append(a.panics, fmt.Sprintf("%v (at log point %q)", r, msg))
+			}
+			a.mu.Unlock()
+		}
+	}()
+	a.mu.Lock()
+	a.calls++
+	a.mu.Unlock()
+	_, ok := conn.ConnectionState()
+	_ = conn.RemoteAddr()
+	_ = conn.LocalAddr()
+	_, _ = conn.SelectedSRTPProtectionProfile()
+	_, _ = conn.RemoteSRTPMasterKeyIdentifier()
+	if ok {
+		a.mu.Lock()
+		a.stateOK++
+		a.mu.Unlock()
+	}
+}
+
+type c16HookLogger struct{ a *c16Access }
+
+func (l c16HookLogger) Trace(m string)            { l.a.at(m) }
+func (l c16HookLogger) Tracef(f string, v ...any) { l.a.at(fmt.Sprintf(f, v...)) }
+func (l c16HookLogger) Debug(m string)            { l.a.at(m) }
+func (l c16HookLogger) Debugf(f string, v ...any) { l.a.at(fmt.Sprintf(f, v...)) }
+func (l c16HookLogger) Info(m string)             { l.a.at(m) }
+func (l c16HookLogger) Infof(f string, v ...any)  { l.a.at(fmt.Sprintf(f, v...)) }
+func (l c16HookLogger) Warn(m string)             { l.a.at(m) }
+func (l c16HookLogger) Warnf(f string, v ...any)  { l.a.at(fmt.Sprintf(f, v...)) }
+func (l c16HookLogger) Error(m string)            { l.a.at(m) }
+func (l c16HookLogger) Errorf(f string, v ...any) { l.a.at(fmt.Sprintf(f, v...)) }
+
+type c16HookFactory struct{ a *c16Access }
+
+func (f c16HookFactory) NewLogger(string) logging.LeveledLogger { return c16HookLogger(f) }
+
+func c16NewLab(t *testing.T, variant string) *c16Lab { return c16NewLabAccess(t, variant, "", nil) }
+
+// c16NewLabAccess: as c16NewLab; the connection of `side` logs into acc.
+func c16NewLabAccess(t *testing.T, variant, side string, acc *c16Access) *c16Lab {
 	t.Helper()
 	ccfg, scfg := c16Configs(variant)
+	if acc != nil && side == "client" {
+		ccfg.LoggerFactory = c16HookFactory{acc}
+	}
+	if acc != nil && side == "server" {
+		scfg.LoggerFactory = c16HookFactory{acc}
+	}
 	n := newVNet()
 	cw := c16Wrap(n.endpoint("client"))
 	sw := c16Wrap(n.endpoint("server"))
@@ -295,6 +381,9 @@ func c16NewLab(t *testing.T, variant string) *c16Lab {
 	lab := &vLab{Net: n, Pump: &vPump{net: n}}
 	lab.Client = &vPeer{Name: "client", EP: cw.vEndpoint, Conn: cc, Done: make(chan struct{})}
 	lab.Server = &vPeer{Name: "server", EP: sw.vEndpoint, Conn: sc, Done: make(chan struct{})}
+	if acc != nil {
+		acc.conn.Store(lab.peer(side).Conn)
+	}
 
 	return &c16Lab{lab: lab, wrap: map[string]*c16Conn{"client": cw, "server": sw}}
 }
@@ -428,9 +517,14 @@ func c16CountFatal(as []c16Alert) int {
 
 type c16Scenario struct {
 	Variant string `json:"variant"`
-	Event   string `json:"event"` // close | fatal | deadline | hsctx | simul | nohs | none
-	Side    string `json:"side"`  // endpoint the event is applied to (X); the other one is P
-	K       int    `json:"k"`     // number of datagram deliveries before the injection
+	// close | fatal | deadline | hsctx | simul | nohs | none |
+	// closeblk: Close of an established connection whose socket does not take writes |
+	// iclose / idl: Close / expired deadline while a Read (early=0) or Write (early=1) of X runs the
+	//   implicit Handshake() (no explicit HandshakeContext call on X) |
+	// access: the state accessors are called at every log point of X during the whole script
+	Event   string `json:"event"`
+	Side    string `json:"side"` // endpoint the event is applied to (X); the other one is P
+	K       int    `json:"k"`    // number of datagram deliveries before the injection
 	Closers int    `json:"closers"`
 	WBlock  bool   `json:"wblock"` // a Write blocked in the socket is present on X at the injection
 	Early   bool   `json:"early"`  // Read and Write issued during the handshake, right before the Close
@@ -440,22 +534,33 @@ type c16Obs struct {
 	Kind string      `json:"kind"`
 	Sc   c16Scenario `json:"sc"`
 	// state at the injection
-	Reached   bool `json:"reached"` // the script reached step K (else injected at the end)
-	Steps     int  `json:"steps"`   // deliveries performed before the injection
-	EstX      bool `json:"est_x"`
-	EstP      bool `json:"est_p"`
-	ClosedX0  bool `json:"closed_x0"` // X already closed before the injection
-	HsPendX   bool `json:"hs_pend_x"`
-	NegX      bool `json:"neg_x"`  // X's pending HandshakeContext is still in version negotiation (no FSM yet)
-	EstX1     bool `json:"est_x1"` // X established at the end of the run
-	HeldReply bool `json:"held_reply"` // simul: the read loop was held exactly at its close_notify reply
-	HeldIdx   int  `json:"held_idx"`
-	HsPendP   bool `json:"hs_pend_p"`
-	RdPendX   bool `json:"rd_pend_x"`
-	RdPendP   bool `json:"rd_pend_p"`
-	WrPendX   bool `json:"wr_pend_x"`
-	Accepted  bool `json:"accepted"` // fatal: X was closed by the delivered alert
-	Delivered bool `json:"delivered"`
+	Reached   bool   `json:"reached"` // the script reached step K (else injected at the end)
+	Steps     int    `json:"steps"`   // deliveries performed before the injection
+	EstX      bool   `json:"est_x"`
+	EstP      bool   `json:"est_p"`
+	ClosedX0  bool   `json:"closed_x0"` // X already closed before the injection
+	HsPendX   bool   `json:"hs_pend_x"`
+	NegX      bool   `json:"neg_x"`      // X's pending HandshakeContext is still in version negotiation (no FSM yet)
+	EstX1     bool   `json:"est_x1"`     // X established at the end of the run
+	HeldReply bool   `json:"held_reply"` // simul: the read loop was held exactly at its close_notify reply
+	HeldIdx   int    `json:"held_idx"`
+	HsPendP   bool   `json:"hs_pend_p"`
+	RdPendX   bool   `json:"rd_pend_x"`
+	RdPendP   bool   `json:"rd_pend_p"`
+	WrPendX   bool   `json:"wr_pend_x"`
+	Accepted  bool   `json:"accepted"` // fatal: X was closed by the delivered alert
+	Delivered bool   `json:"delivered"`
+	EpP       int    `json:"ep_p"`               // fatal: P's local epoch when it sent the alert
+	XKeys     bool   `json:"x_keys"`             // fatal (DTLS 1.3): X held the read keys of that epoch, epoch <= X's remote epoch
+	SockBlk   bool   `json:"sock_blk"`           // closeblk: X's socket was not taking writes when Close was called
+	CloseMs   int    `json:"close_ms"`           // closeblk: virtual ms until every Close had returned (-1: one had not after 6 s)
+	Implicit  string `json:"implicit,omitempty"` // iclose/idl: the call of X that runs the implicit Handshake
+	DlHsX     string `json:"dl_hs_x,omitempty"`  // idl: class of that call 100 ms after its deadline expired
+	// access
+	AccCalls   int      `json:"acc_calls"`
+	AccStateOK int      `json:"acc_state_ok"`
+	AccSkipped int      `json:"acc_skipped"`
+	AccPanics  []string `json:"acc_panics,omitempty"`
 	// results
 	CloseRes []string `json:"close_res"`
 	HsX      string   `json:"hs_x"`
@@ -550,15 +655,30 @@ func c16LeakCheck(base int) (int, string) {
 }
 
 // c16Run executes one scenario inside the current bubble.
-func c16Run(t *testing.T, sc c16Scenario) c16Obs {
+func c16Run(t *testing.T, sc c16Scenario) (obs c16Obs) {
 	t.Helper()
-	obs := c16Obs{Kind: "c16", Sc: sc}
+	if sc.Event == "iclose" || sc.Event == "idl" {
+		return c16RunImplicit(t, sc)
+	}
+	obs = c16Obs{Kind: "c16", Sc: sc}
 	base := c16BubbleGoroutines()
-	l := c16NewLab(t, sc.Variant)
+	var acc *c16Access
+	if sc.Event == "access" {
+		acc = &c16Access{}
+	}
+	l := c16NewLabAccess(t, sc.Variant, sc.Side, acc)
 	X, P := l.lab.peer(sc.Side), l.lab.other(sc.Side)
 	xw := l.wrap[sc.Side]
 	ctxX, cancelX := context.WithCancel(context.Background())
 	defer cancelX()
+	if acc != nil {
+		defer func() {
+			acc.mu.Lock()
+			obs.AccCalls, obs.AccStateOK, obs.AccSkipped = acc.calls, acc.stateOK, acc.skipped
+			obs.AccPanics = append([]string(nil), acc.panics...)
+			acc.mu.Unlock()
+		}()
+	}
 
 	var hsX, hsP, wrX *c16Call
 	var rdX, rdP *c16Reader
@@ -694,7 +814,50 @@ func c16Run(t *testing.T, sc c16Scenario) c16Obs {
 		for _, c := range cl {
 			obs.CloseRes = append(obs.CloseRes, c.class())
 		}
+	case "closeblk":
+		// the transport stops taking writes (net.Pipe-like transport whose peer application does
+		// not read): the close_notify write of Close() blocks; Close must return all the same
+		if obs.EstX && !obs.ClosedX0 {
+			xw.block()
+			obs.SockBlk = true
+		}
+		t0 := time.Now()
+		var cl []*c16Call
+		for i := 0; i < sc.Closers; i++ {
+			cl = append(cl, c16Go(X.Conn.Close))
+		}
+		synctest.Wait()
+		if rdX != nil {
+			obs.RdX = rdX.call.class() // released at once: closed is set before the write
+		}
+		all := func() bool {
+			for _, c := range cl {
+				if !c.returned() {
+					return false
+				}
+			}
+
+			return true
+		}
+		obs.CloseMs = -1
+		for i := 0; i < 12; i++ { // up to 6 s of virtual time
+			if all() {
+				obs.CloseMs = int(time.Since(t0) / time.Millisecond)
+
+				break
+			}
+			time.Sleep(500 * time.Millisecond)
+			synctest.Wait()
+		}
+		for _, c := range cl {
+			obs.CloseRes = append(obs.CloseRes, c.class())
+		}
+		xw.unblock()
+		synctest.Wait()
+	case "access":
 	case "fatal":
+		obs.EpP = int(dtlsstate.CommonState(P.Conn.state).LocalEpoch())
+		obs.XKeys = c16CanRead13(X.Conn, uint16(obs.EpP)) //nolint:gosec
 		if err := P.Conn.notify(context.Background(), alert.Fatal, alert.HandshakeFailure); err == nil {
 			obs.Delivered = l.drain(64) > 0
 		}
@@ -735,6 +898,90 @@ func c16Run(t *testing.T, sc c16Scenario) c16Obs {
 	}
 
 	c16After(t, l, &obs, base, X, P, mark, hsX, hsP, rdX, rdP, wrX)
+
+	return obs
+}
+
+// c16CanRead13: conn (DTLS 1.3) holds the read keys of epoch ep and accepts records of it
+// (openCiphertextRecord: a generation is eligible when its epoch <= the remote epoch).
+func c16CanRead13(conn *Conn, ep uint16) bool {
+	st, ok := conn.state.(*dtlsstate.State13)
+	if !ok || st.TrafficKeys == nil || ep == 0 {
+		return false
+	}
+	for _, g := range st.TrafficKeys.ReadCandidates(uint8(ep&3), nil) { //nolint:gosec
+		if g.Epoch == ep && g.Protection != nil && g.Epoch <= st.RemoteEpoch() {
+			return true
+		}
+	}
+
+	return false
+}
+
+// c16RunImplicit: X never calls HandshakeContext; its first Read (early=0) or Write (early=1)
+// runs the implicit Handshake().  After k deliveries, while that call is blocked in the
+// handshake: Close by `closers` goroutines (iclose) or SetDeadline in the past (idl).
+// One call only: a second one would wait on handshakeMutex, which is not a durable block.
+// The call's result class is reported as hs_x (it is the handshake caller).
+func c16RunImplicit(t *testing.T, sc c16Scenario) c16Obs {
+	t.Helper()
+	obs := c16Obs{Kind: "c16", Sc: sc, HeldIdx: -1}
+	base := c16BubbleGoroutines()
+	l := c16NewLab(t, sc.Variant)
+	X, P := l.lab.peer(sc.Side), l.lab.other(sc.Side)
+	hsP := c16Go(func() error { return P.Conn.HandshakeContext(context.Background()) })
+	var drv *c16Call
+	if sc.Early {
+		obs.Implicit = "Write"
+		drv = c16Go(func() error { _, err := X.Conn.Write([]byte("implicit-handshake-write")); return err })
+	} else {
+		obs.Implicit = "Read"
+		drv = c16Go(func() error { _, err := X.Conn.Read(make([]byte, 256)); return err })
+	}
+	obs.Reached = true
+	for obs.Steps < sc.K {
+		if !l.deliverNext() {
+			if X.Conn.isHandshakeCompletedSuccessfully() || drv.returned() {
+				obs.Reached = false
+
+				break
+			}
+			time.Sleep(1100 * time.Millisecond) // waiting for a retransmission timer
+			if !l.deliverNext() {
+				obs.Reached = false
+
+				break
+			}
+		}
+		obs.Steps++
+	}
+	synctest.Wait()
+	obs.EstX = X.Conn.isHandshakeCompletedSuccessfully()
+	obs.EstP = P.Conn.isHandshakeCompletedSuccessfully()
+	obs.ClosedX0 = X.Conn.isConnectionClosed()
+	obs.HsPendX = !drv.returned() && !obs.EstX
+	obs.HsPendP = !hsP.returned()
+	obs.NegX = obs.HsPendX && X.Conn.fsm == nil
+	mark := l.lab.Net.count()
+	switch sc.Event {
+	case "iclose":
+		var cl []*c16Call
+		for i := 0; i < sc.Closers; i++ {
+			cl = append(cl, c16Go(X.Conn.Close))
+		}
+		synctest.Wait()
+		for _, c := range cl {
+			obs.CloseRes = append(obs.CloseRes, c.class())
+		}
+	case "idl":
+		_ = X.Conn.SetDeadline(time.Now().Add(-time.Second))
+		synctest.Wait()
+		time.Sleep(100 * time.Millisecond) // less than any retransmission interval
+		synctest.Wait()
+		obs.DlHsX = drv.class() // "stuck": the expired deadline did not interrupt the call
+		_ = X.Conn.SetDeadline(time.Time{})
+	}
+	c16After(t, l, &obs, base, X, P, mark, drv, hsP, nil, nil, nil)
 
 	return obs
 }
@@ -807,7 +1054,8 @@ func c16After(
 	obs.ClosedP = P.Conn.isConnectionClosed()
 	obs.Texts += strings.Join([]string{hsX.text(), hsP.text()}, ";")
 
-	if obs.Sc.Event == "close" || obs.Sc.Event == "fatal" || obs.Sc.Event == "simul" {
+	switch obs.Sc.Event {
+	case "close", "fatal", "simul", "closeblk", "iclose":
 		c2 := c16Go(X.Conn.Close)
 		synctest.Wait()
 		obs.Close2X = c2.class()
@@ -953,6 +1201,25 @@ func c16Scenarios(t *testing.T, emit func(any)) []c16Scenario {
 			for closers := 1; closers <= 4; closers++ {
 				out = append(out, c16Scenario{Variant: v, Event: "nohs", Side: side, K: 0, Closers: closers})
 			}
+			// Close on a socket that does not take writes: the established part of the script
+			for k := n - c16DataSteps - 1; k <= n; k++ {
+				if k < 0 {
+					continue
+				}
+				out = append(out,
+					c16Scenario{Variant: v, Event: "closeblk", Side: side, K: k, Closers: 1},
+					c16Scenario{Variant: v, Event: "closeblk", Side: side, K: k, Closers: 3})
+			}
+			// Close / deadline while a Read or a Write runs the implicit Handshake: the handshake part
+			for k := 0; k <= n-c16DataSteps; k++ {
+				for _, wr := range []bool{false, true} {
+					out = append(out,
+						c16Scenario{Variant: v, Event: "iclose", Side: side, K: k, Closers: 1, Early: wr},
+						c16Scenario{Variant: v, Event: "idl", Side: side, K: k, Early: wr})
+				}
+			}
+			// state accessors at every log point of the whole script
+			out = append(out, c16Scenario{Variant: v, Event: "access", Side: side, K: 1000})
 		}
 	}
 
